@@ -108,6 +108,19 @@ fn main() {
                 std::fs::write(d.join(format!("seed-{i:03}")), b).expect("corpus file");
             }
         }
+        // the connection-level target: generated histories of the sink engine in the byte form of `sinkbed::decode_ops`
+        {
+            use proptest::prelude::*;
+            let d = dir.join("sink");
+            std::fs::create_dir_all(&d).expect("corpus dir");
+            let hist = mqtt_verif::runner::gen_values(7, 120, &prop::collection::vec(props::c08::op_strategy(), 2..20));
+            let hist2 = mqtt_verif::runner::gen_values(8, 120, &prop::collection::vec(props::c05::op_strategy(), 3..22));
+            for (i, ops) in hist.iter().chain(hist2.iter()).enumerate() {
+                let mut b = vec![(i % 5) as u8, (i / 5 % 4) as u8, (i / 20 % 3) as u8, (i / 7) as u8];
+                b.extend_from_slice(&mqtt_verif::sinkbed::encode_ops(ops));
+                std::fs::write(d.join(format!("seed-{i:03}")), b).expect("corpus file");
+            }
+        }
         std::process::exit(0);
     }
     let id = args[0].to_uppercase();
